@@ -153,6 +153,59 @@ theorem routeFrom_sent (cs : Bool) (fs : FS) (urlPath : Bytes)
 
 end Casket.FCGIRoute
 
+/-! ### trailing dots and spaces -/
+namespace Casket.FCGIRoute
+open Casket.Fault Casket.FCGIRouteSpec
+
+def isSpDot (b : UInt8) : Bool := b == 0x20 || b == dot
+
+/-- the rule's extension does not end in a dot or a space (it would name no file `TrimRight`
+leaves alone) -/
+def ExtPlain (rule : Rule) : Prop := ∀ b, rule.ext.getLast? = some b → isSpDot b = false
+
+/-- checked on all 256 byte values -/
+theorem isSpDot_lowerB_nat : ∀ n, n < 256 → isSpDot (lowerB (UInt8.ofNat n)) = isSpDot (UInt8.ofNat n) := by
+  decide +kernel
+
+theorem isSpDot_lowerB (b : UInt8) : isSpDot (lowerB b) = isSpDot b := by
+  have := isSpDot_lowerB_nat b.toNat (UInt8.toNat_lt b)
+  rwa [UInt8.ofNat_toNat] at this
+
+theorem trimRightSpDot_id {s : Bytes} {b : UInt8} (hl : s.getLast? = some b) (hb : isSpDot b = false) :
+    trimRightSpDot s = s := by
+  unfold trimRightSpDot
+  obtain ⟨ys, rfl⟩ := List.getLast?_eq_some_iff.mp hl
+  have hr : (ys ++ [b]).reverse = b :: ys.reverse := by simp
+  rw [hr, List.dropWhile_cons]
+  have : (b == 0x20 || b == dot) = false := hb
+  simp only [this, Bool.false_eq_true, if_false]
+  simp
+
+/-- a path that carries a plain extension (in any letter case) is not touched by the trimming -/
+theorem trim_of_ext {urlPath : Bytes} {rule : Rule} (hp : ExtPlain rule) (hext : rule.ext ≠ [])
+    (hsuf : hasSuffix (toLower urlPath) (toLower rule.ext) = true) : trimRightSpDot urlPath = urlPath := by
+  obtain ⟨pre, hpre⟩ := hasSuffix_iff.mp hsuf
+  -- last byte of the extension
+  obtain ⟨e, he⟩ : ∃ e, rule.ext.getLast? = some e := by
+    cases h : rule.ext.getLast? with
+    | none => exact absurd (List.getLast?_eq_none_iff.mp h) hext
+    | some e => exact ⟨e, rfl⟩
+  have hlow : (toLower rule.ext).getLast? = some (lowerB e) := by
+    simp [toLower, List.getLast?_map, he]
+  have hul : (toLower urlPath).getLast? = some (lowerB e) := by
+    rw [hpre, List.getLast?_append, hlow]; rfl
+  have : ∃ c, urlPath.getLast? = some c ∧ lowerB c = lowerB e := by
+    simp only [toLower, List.getLast?_map] at hul
+    cases hc : urlPath.getLast? with
+    | none => rw [hc] at hul; cases hul
+    | some c => rw [hc] at hul; exact ⟨c, rfl, by simpa using hul⟩
+  obtain ⟨c, hc, hce⟩ := this
+  apply trimRightSpDot_id hc
+  rw [← isSpDot_lowerB, hce, isSpDot_lowerB]
+  exact hp e he
+
+end Casket.FCGIRoute
+
 /-! ### the environment -/
 namespace Casket.FCGIRoute
 open Casket.Fault Casket.FCGIRouteSpec
@@ -166,7 +219,7 @@ theorem lookup_setVar_eq (k v : Bytes) : ∀ e : List (Bytes × Bytes), lookup (
     unfold setVar
     by_cases h : (k == k') = true
     · simp [h, lookup]
-    · simp only [h, Bool.false_eq_true, if_false]
+    · rw [if_neg h]
       have hne : (k' == k) = false := by
         have : k ≠ k' := by simpa using h
         simpa using (fun e => this e.symm)
@@ -188,7 +241,7 @@ theorem lookup_setVar_ne (k k' v : Bytes) (hne : k' ≠ k) :
       subst hk
       have : (k == k') = false := by simpa using (fun e => hne e.symm)
       simp [h, lookup, this]
-    · simp only [h, Bool.false_eq_true, if_false]
+    · rw [if_neg h]
       by_cases h2 : (k0 == k') = true
       · simp [lookup, h2]
       · simp only [lookup, List.find?_cons, h2] at ih ⊢
